@@ -64,8 +64,9 @@ def _stem_job(args):
             plans.append(('other', var['other'], 'close'))
         if 'small' in var:
             plans.append(('small', var['small'], 'close'))
-        if 'ema-matype' in var:
-            plans.append(('ema-matype', var['ema-matype'], 'close'))
+        for vn in var:
+            if vn.endswith('-matype'):
+                plans.append((vn, var[vn], 'close'))
         if indreg.has(f, 'source_type'):
             plans.append(('default', var['default'], 'hl2'))
             plans.append(('default', var['default'], 'volume'))      # the only source that can be exactly zero
@@ -168,6 +169,58 @@ def _tree_job(args):
     return out
 
 
+def _short_job(args):
+    """default parameters on the first k candles of stem walk1, k = 1..19, against the full 300: the values of the very first candles
+    (seeds of recursive kernels). One forked child per (indicator, k): kernels may crash natively on inputs shorter than their window."""
+    name, k = args
+    fs = dict(indreg.functions())
+    f = fs[name]
+    st = indreg.stems(300)
+    st2 = indreg.stems(300, base=50.0)
+    out = {'n': 0, 'viols': [], 'raised': 0}
+    for sname in ('walk1', 'spike'):
+        full_c, second = st[sname], st2[sname]
+        try:
+            full = indreg.call(name, f, full_c, True, {}, second)
+        except Exception:
+            return out
+        # (a) two full-length inputs that share exactly the first k candles (the rest scaled by 1.03): no short input involved
+        hit = False
+        for factor in (1.03, 0.97):
+            alt, alt2 = full_c.copy(), second.copy()
+            alt[k:, 1:5] *= factor
+            alt2[k:, 1:5] *= factor
+            try:
+                other = indreg.call(name, f, alt, True, {}, alt2)
+                out['n'] += 1
+                d = _compare(name, {}, full, other, k, _exempt_tail(name, {}))        # compares the first k entries of every field
+                if d:
+                    fn, i, a, b = d[0]
+                    out['viols'].append(Violation('not-causal', {'indicator': name}, {'indicator': name, 'variant': 'default', 'params': {}, 'stem': sname, 'cut': k, 'mode': 'short'},
+                                                  '%s() field %s index %d: %r and %r on two 300-candle series that share their first %d candles (stem %s, the rest scaled by %s)'
+                                                  % (name, fn, i, a, b, k, sname, factor)).to_json())
+                    hit = True
+                    break
+            except Exception:
+                out['raised'] += 1
+        if hit:
+            break
+        # (b) the prefix itself
+        try:
+            pref = indreg.call(name, f, full_c[:k], True, {}, second[:k])
+        except Exception:
+            out['raised'] += 1
+            continue
+        out['n'] += 1
+        d = _compare(name, {}, full, pref, k, _exempt_tail(name, {}))
+        if d:
+            fn, i, a, b = d[0]
+            out['viols'].append(Violation('not-causal', {'indicator': name}, {'indicator': name, 'variant': 'default', 'params': {}, 'stem': sname, 'cut': k, 'mode': 'short'},
+                                          '%s() field %s index %d: %r on the first %d candles of stem %s, %r on all 300' % (name, fn, i, b, k, sname, a)).to_json())
+            break
+    return out
+
+
 def run(ctx):
     cov = ctx.coverage
     names = [n for n, f in indreg.functions() if indreg.has(f, 'sequential')]
@@ -197,6 +250,23 @@ def run(ctx):
             if v.sigkey() not in sigs:
                 sigs.add(v.sigkey())
                 ctx.add(v)
+    # very short prefixes (1..19 candles), default parameters
+    sjobs = [(n, k) for n in names for k in (range(1, 20) if not ctx.quick else (1, 2, 3, 5, 8, 12, 13, 19))]
+    ncr = 0
+    for (n, k), (st, r) in zip(sjobs, core.pmap_isolated(_short_job, sjobs)):
+        if st != 'ok':
+            ncr += 1
+            continue
+        cov['transitions'] += r['n']
+        ctx.count('prefix-comparisons(short)', r['n'])
+        ctx.count('raised-on-short-input', r['raised'])
+        for v in r['viols']:
+            v = Violation.from_json(v)
+            if v.sigkey() not in sigs:
+                sigs.add(v.sigkey())
+                ctx.add(v)
+    if ncr:
+        crashed.append('%d (indicator, k) pairs with k <= 19 candles crashed natively (kernels without bounds checks on inputs shorter than their window)' % ncr)
     depth = 6 if ctx.quick else 8
     tcov = set()
     for n, (st, r) in zip(names, core.pmap_isolated(_tree_job, [([n], depth) for n in names])):
@@ -229,7 +299,9 @@ def run(ctx):
 
 def replay(case, ctx):
     name = case['indicator']
-    if case.get('mode') == 'tree':
+    if case.get('mode') == 'short':
+        r = _short_job((name, case['cut']))
+    elif case.get('mode') == 'tree':
         r = _tree_job(([name], len(case['word'])))
     else:
         r = _stem_job(([name], False))
